@@ -32,7 +32,7 @@ def StepC (s : Pkg) : Step → Prop
   | .writeStream _ _ => True
   | .removeStream _ => True
   | .removeSignature => True
-  | .setSummary f => ∃ op : SumOp, op.Ok ∧ f = op.apply
+  | .setSummary f => (∃ op : SumOp, op.Ok ∧ f = op.apply) ∨ (∃ op : TemplOp, op.OkIn s.summary ∧ f = op.apply)
   | .setCodepage cp => IsUtf8 cp
   | .save => True
   | .reopen => s.summaryModified = false ∧ s.pool.modified = false
@@ -105,8 +105,9 @@ theorem summary_after (slack : Nat → Nat) (s : Pkg) (tabs : List Table) (h : A
     · simp only; split <;> exact h.summary
   | removeSignature => exact h.summary
   | setSummary f =>
-    obtain ⟨op, hok, rfl⟩ := hc
-    exact sumInv_apply s.summary h.summary op hok
+    rcases hc with ⟨op, hok, rfl⟩ | ⟨op, hok, rfl⟩
+    · exact sumInv_apply s.summary h.summary op hok
+    · exact sumInv_templ s.summary h.summary op hok
   | setCodepage cp => exact h.summary
   | save =>
     show SumInv (flush s).1.summary
